@@ -81,7 +81,8 @@ FILTER_TEXT = [j("_filter:" + n) for n in ("LDAPFilter.from_string", "_unpack_fi
 
 # decoders with value-level postconditions (contracts/decode.py, second half)
 VALUE_DECODERS = [j("_authentication:SimpleCredential.unpack"), j("_authentication:SaslCredential.unpack"), j("_authentication:AuthenticationCredential.unpack"),
-                  j("_filter:_unpack_filter_attribute_value_assertion")] + \
+                  j("_filter:_unpack_filter_attribute_value_assertion"), j("_controls:unpack_ldap_control")] + \
+                 [j("_controls:%s.unpack" % n) for n in ("LDAPControl", "PagedResultControl", "ShowDeactivatedLinkControl", "ShowDeletedControl")] + \
                  [j("_filter:%s.unpack" % n) for n in ("FilterEquality", "FilterGreaterOrEqual", "FilterLessOrEqual", "FilterApproxMatch", "FilterPresent")] + \
                  [j("_messages:_unpack_%s" % n) for n in ("bind_request", "search_request", "extended_request", "ldap_result", "search_result_done", "bind_response", "extended_response", "search_result_reference", "partial_attribute", "search_result_entry")] + \
                  [j("specs.ldapmsg:" + n) for n in ("lemma_nth_rest_step", "lemma_rt_extended_request")] + DECODE_TREE[-6:]
@@ -90,10 +91,10 @@ VALUE_DECODERS = [j("_authentication:SimpleCredential.unpack"), j("_authenticati
 RT_LEMMAS = [j("specs.ldapmsg:" + n) for n in ("lemma_strs_enc_nth", "lemma_strs_enc_end", "lemma_strs_enc_nonempty", "lemma_opt_single", "lemma_opt_pair",
                                                "lemma_rt_ldap_result", "thm_rt_bind_response", "thm_rt_extended_response", "thm_rt_referrals",
                                                "lemma_octs_enc_nth", "lemma_octs_enc_end", "lemma_octs_enc_nonempty", "thm_rt_octs",
-                                               "thm_rt_ava_filter", "thm_rt_bind_request_simple", "thm_rt_bind_request_sasl", "thm_rt_search_request_fixed")]
+                                               "thm_rt_ava_filter", "thm_rt_bind_request_simple", "thm_rt_bind_request_sasl", "thm_rt_search_request_fixed", "thm_rt_control")]
 _VD_NOTE = ("Proved for all octets (value-level postconditions over the X.690 denotation, which accepts every definite length form): both credential choices (SASL credentials present exactly when a UNIVERSAL primitive OCTET STRING follows "
             "the mechanism - anything else is an ignored trailing element), the four AttributeValueAssertion filter choices and `present`, the leading components of BindRequest (version, name), all fixed components of SearchRequest, "
-            "LDAPResult with its optional referral list, the URIs of SearchResultReference, the attribute selection of SearchRequest, PartialAttribute with its values (list items = contents of the elements, in order, as many as there are elements), and the optional context-tagged components of ExtendedRequest / BindResponse / ExtendedResponse as a fold over the element stream "
+            "Control (criticality DEFAULT FALSE recognised by UNIVERSAL 1, controlValue by UNIVERSAL 4 after it, anything else ignored) and the paged-results value, LDAPResult with its optional referral list, the URIs of SearchResultReference, the attribute selection of SearchRequest, PartialAttribute with its values (list items = contents of the elements, in order, as many as there are elements), and the optional context-tagged components of ExtendedRequest / BindResponse / ExtendedResponse as a fold over the element stream "
             "(the last element with the tag wins, every unrecognised element is skipped: 'unknown trailing elements do not change the result' for all inputs). For ExtendedRequest the composition with the encoder's relation is a proved lemma "
             "(lemma_rt_extended_request): decoding what the encoder emits gives back name and value. The envelope decoder returns the messageID denoted by the first element and the message class selected by the APPLICATION tag number of the second. ")
 
@@ -103,7 +104,7 @@ REGISTRY = {
                             "inlined without a contract of their own: ASN1Tag.universal_tag, ASN1Reader.__init__/__bool__, ASN1Writer.__init__/__enter__/push_sequence/push_set (executed symbolically at every call site)"]},
     "C01": {"jobs": VALUE_DECODERS + RT_LEMMAS, "native": "native_messages.py", "level": "other",
             "explanation": _VD_NOTE + "The encode side is C03's encoding relation. Round trip theorems (specs/ldapmsg.py, proved like any function): with the encoder's postcondition and the decoder's postcondition as hypotheses over the same octets, every decoded field equals the encoded one - "
-                           "for BindResponse, ExtendedResponse (hence SearchResultDone: LDAPResult alone), ExtendedRequest, BindRequest with either credential choice, the six fixed components of SearchRequest, the AttributeValueAssertion filter choices, and every list of strings / octet strings (referrals, URIs of a SearchResultReference, attribute selection, attribute values: same length, same items); text fields modulo unutf8(utf8(t)) == t. "
+                           "for BindResponse, ExtendedResponse (hence SearchResultDone: LDAPResult alone), ExtendedRequest, BindRequest with either credential choice, the six fixed components of SearchRequest, the AttributeValueAssertion filter choices, Control, and every list of strings / octet strings (referrals, URIs of a SearchResultReference, attribute selection, attribute values: same length, same items); text fields modulo unutf8(utf8(t)) == t. "
                            "For the other message kinds, controls and filters the composition is the bounded evaluation: "
                            "Contract unpack(pack(m)) == m (reader exhausted, re-encoding identical; known controls may expose their raw value), evaluated over a stated bounded set of messages of all nine kinds. "
                            "The byte layer below (every TLV written is read back identically, all integers) is proved under C07; the per-message node-level contracts are not discharged deductively yet."},
